@@ -604,6 +604,141 @@ def stage_events(ctx):
                               f"non-hidden file, but it has {have.get(rel, 0)} present copy record(s) on the node after the import tasks ran",
                               {"kind": "events", "events": log, "file": rel})
 
+def stage_walk(ctx, e):
+    """the recursive scan itself: real DefaultNodeIO.file_walk on random directory trees (regular files, dot names, symlinks to
+    files inside/outside, unix sockets, dangling links, directories, symlinked directories, any nesting) and every kind of top-level
+    argument, compared as a set with the Lean `fileWalk` (theorems C04_walk_exact / _once / _confined / C04_fileWalk_top);
+    independent oracle: a plainly importable file reached through real directories only must be yielded"""
+    import pathlib
+    import shutil
+    import alpenhorn.daemon.update as upd
+    from alpenhorn.scheduler import FairMultiFIFOQueue
+    rng = ctx.rng
+    w = worldmod.World(e)
+    node = w.node("nw", w.group("gw"))
+    e.set_host("h1")
+    io = upd.UpdateableNode(FairMultiFIFOQueue(), w.db.StorageNode.get(id=node.id)).io
+    root = node.root.rstrip("/")
+    outside = root + "-wout"
+    shutil.rmtree(outside, ignore_errors=True)
+    os.makedirs(outside)
+    with open(os.path.join(outside, "target.dat"), "wb") as f:
+        f.write(b"t")
+    names = ["a", "b.dat", ".h", "c-d", "x_1", "ee", ".dd", "f.lock", "0"]
+    counter = [0]
+
+    def mksock(path):
+        """a special file that nothing can block on (a unix socket; bound under a short name, then moved into place)"""
+        import socket
+        short = os.path.join("/tmp", f"vs{os.getpid()}")
+        if os.path.exists(short):
+            os.unlink(short)
+        sk = socket.socket(socket.AF_UNIX)
+        sk.bind(short)
+        sk.close()
+        shutil.move(short, path)
+
+    def fresh(used):
+        nm = rng.choice(names)
+        while nm in used:
+            nm = nm + str(rng.randrange(10))
+        used.add(nm)
+        return nm
+
+    def make(full, name, kind, depth, plain, must, rel):
+        """create one entry; returns its preorder tokens.  plain: reached through real directories only so far"""
+        if kind == "F":
+            with open(full, "wb") as f:
+                f.write(b"x" * rng.choice([0, 1, 7]))
+            if plain and not name.startswith("."):
+                must.append(rel)
+            return [f"{name}:F"]
+        if kind == "S":
+            os.symlink(rng.choice([os.path.join(outside, "target.dat"), os.path.join(root, "ALPENHORN_NODE")]), full)
+            return [f"{name}:S"]
+        if kind == "O":
+            how = rng.choice(["dangling", "socket", "link-to-socket"])
+            if how == "dangling":
+                os.symlink(os.path.join(outside, "nothing-here"), full)
+            elif how == "socket":
+                mksock(full)
+            else:
+                counter[0] += 1
+                ff = os.path.join(outside, f"sock{counter[0]}")
+                mksock(ff)
+                os.symlink(ff, full)
+            return [f"{name}:O"]
+        if kind == "D":
+            os.mkdir(full)
+            kids = children(full, depth + 1, plain, must, rel)
+            return [f"{name}:D:{kids[0]}"] + kids[1]
+        counter[0] += 1
+        target = os.path.join(outside, f"dir{counter[0]}")
+        os.mkdir(target)
+        kids = children(target, depth + 1, False, must, rel)
+        os.symlink(target, full)
+        return [f"{name}:L:{kids[0]}"] + kids[1]
+
+    def children(dirpath, depth, plain, must, rel):
+        k = rng.choice([0, 1, 2, 3, 4, 5]) if depth < 4 else rng.choice([0, 1, 2])
+        used, toks = set(), []
+        for _ in range(k):
+            nm = fresh(used)
+            kind = rng.choice("FFFSODDL") if depth < 4 else rng.choice("FFSO")
+            toks += make(os.path.join(dirpath, nm), nm, kind, depth, plain, must, rel + "/" + nm)
+        return k, toks
+
+    n = 120 if ctx.quick() else 4000
+    lines, reals, metas = [], [], []
+    for i in range(n):
+        base = f"w{i}"
+        rel = base if rng.random() < 0.6 else base + "/" + rng.choice(["sub", ".s", "q.dat"])
+        os.makedirs(os.path.dirname(os.path.join(root, rel)) or root, exist_ok=True)
+        full = os.path.join(root, rel)
+        topkind = rng.choice(["D"] * 8 + ["L", "L", "F", "S", "O", "missing", "absolute"])
+        must = []
+        arg = rel
+        if topkind == "missing":
+            top = "missing"
+        elif topkind == "absolute":
+            top = "absolute"
+            arg = rng.choice([full, "/" + rel, "/"])
+        else:
+            top = ",".join(make(full, rel.rsplit("/", 1)[-1], topkind, 0, True, must, rel))
+        try:
+            got = []
+            for p_ in io.file_walk(pathlib.PurePath(arg)):
+                sp = str(p_)
+                got.append(sp[len(root) + 1:] if sp.startswith(root + "/") else "ABS:" + sp)
+            real = "ok " + (",".join(sorted(got)) if got else "-")
+        except ValueError:
+            got, real = [], "valueError"
+        except Exception as ex:  # noqa
+            got, real = [], f"raised:{type(ex).__name__}"
+        lines.append(f"fwalk {rel} {top}"); reals.append(real); metas.append((arg, topkind, top))
+        ctx.count(f"walk:top:{topkind}")
+        ctx.count("walk:yielded", len(got))
+        if real.startswith("ok"):
+            for m in must:
+                if m not in got:
+                    ctx.violation("walk:file-left-out", f"file_walk({arg!r}) did not yield {m!r}, a regular non-dot file reached through "
+                                  f"real directories only: no recursive import request can ever register it (tree {top})",
+                                  {"kind": "walk", "arg": arg, "tree": top, "missing": m, "yielded": got})
+        if len(lines) % 40 == 0:          # keep the node root small
+            for j in range(i - 39, i + 1):
+                shutil.rmtree(os.path.join(root, f"w{j}"), ignore_errors=True)
+    outs = common.Driver().batch(lines)
+    for ml, real, meta, out in zip(lines, reals, metas, outs):
+        mo = out
+        if out.startswith("ok ") and out != "ok -":
+            mo = "ok " + ",".join(sorted(out[3:].split(",")))
+        ctx.case(ml, nontrivial=out not in ("ok -", "valueError"),
+                 sample={"walked": meta[0], "tree": meta[2], "model": mo, "real": real} if meta[1] == "L" and len(ctx.samples) < 4 else None)
+        if mo != real and len(ctx.corr_broken) < 6:
+            ctx.corr_broken.append({"stream": "file_walk-vs-fileWalk", "walked": meta[0], "top": meta[1], "tree": meta[2],
+                                    "model": mo, "real": real})
+    shutil.rmtree(outside, ignore_errors=True)
+
 
 def run(ctx):
     ok = common.proof_stage(ctx, MODULE)
@@ -634,13 +769,16 @@ def run(ctx):
     stage_events(ctx)
     with envmod.Env() as e3:
         stage_scan(ctx, e3)
+    with envmod.Env() as e4:
+        stage_walk(ctx, e4)
     ctx.coverage["rule"] = ("a fixed adversarial tree per case (regular files incl. nested and dot-directories, dot-files, lock file, placeholder, "
                             "symlinks to inside/outside files, symlinked directories to inside/outside, a directory, the marker, an absent "
                             "path) x request form (import request rel/abs/dotted/non-canonical, watchdog-style absolute event incl. outside "
                             "root and the root itself) x detector behaviour (first 1/2 components, reject, hostile names, the path itself, "
                             "non-ancestor) x register flag x pre-existing acq/file/copy rows in every state; real update_import / import_file "
                             "/ _import_file, index diff compared with the Lean importStep and judged by tree oracles; plus 2-3 real worker "
-                            "threads importing one path, preempted at every SQL statement. distinct = model input + tree entry + request form")
+                            "threads importing one path, preempted at every SQL statement; plus the recursive scan (file_walk) on random trees of "
+                            "every entry kind vs the Lean fileWalk. distinct = model input + tree entry + request form")
     from props.c06 import finish_search
     finish_search(ctx, ok)
 
